@@ -74,10 +74,13 @@ class H5:
         return self.attrs.get("/Info/Parameters", {})
 
 
-def run_inovesa(variant, opts, cwd, xdg, timeout=180, env=None, extra_args=(), config=None):
-    """Run the program; opts dict of long options. -c /dev/null unless config given."""
+def run_inovesa(variant, opts, cwd, xdg, timeout=180, env=None, extra_args=(), config=None, inherit_sigint_ignored=False):
+    """Run the program; opts dict of long options. -c /dev/null unless config given.
+    inherit_sigint_ignored: start it the way a non-interactive shell starts a background job (SIGINT disposition 'ignore' inherited)."""
     exe = os.path.join(build.build(variant), "inovesa")
     argv = [exe, "--config", config if config else "/dev/null"] + to_args(opts) + list(extra_args)
+    if inherit_sigint_ignored:
+        argv = ["/bin/sh", "-c", "trap '' INT; exec \"$0\" \"$@\""] + argv
     e = dict(core.SAN_ENV)
     e["XDG_DATA_HOME"] = xdg
     e["HOME"] = cwd
